@@ -56,15 +56,34 @@ theorem strict_origins_table : originsRespected = true := by decide +kernel
 theorem strict_origins_nonvacuous :
     (allowedStrictOrigins.all fun (s, _) => !(acceptingTags s).isEmpty) = true := by decide +kernel
 
-/-- **Strict scalar loaders respect the documented origins**: if the translated strict closure of a
-    documented scalar returns a value on a datum — with its call sites behaving in any way the
-    catalogue allows — the datum's class is one of the documented allowed strict origins. -/
-theorem strict_scalar_respects_origins (oracle : SiteOracle) (s : String) (allowed : List String)
+theorem factsOf_mem (d : Val) : factsOf d ∈ tagFacts := by
+  unfold factsOf
+  split
+  · rename_i f hf
+    exact List.mem_of_find?_eq_some hf
+  · decide +kernel
+
+/-- the catalogue hypothesis in the form the origins table is actually checked against: a call site
+    WITHOUT a catalogue row for this datum class may return (truthy or falsy) or raise
+    `UncataloguedSite`; a site with a row stays within it.  Weaker than `WithinCatalogue`
+    (`withinL_of_within`), which pins row-less sites to raising. -/
+def WithinCatalogueL (oracle : SiteOracle) : Prop :=
+  ∀ strict s d prog cat, closureOf s strict = some (prog, cat) →
+    ∀ site, (oracle strict s d site).cls ∈ guardedL (cat (factsOf d).tag site)
+
+theorem withinL_of_within {oracle : SiteOracle} (h : WithinCatalogue oracle) : WithinCatalogueL oracle :=
+  fun strict s d prog cat hc site => siteWithin_guardedL (h strict s d prog cat hc site)
+
+/-- **Strict scalar loaders respect the documented origins** (open form): if the translated strict
+    closure of a documented scalar returns a value on a datum — its call sites behaving in any way
+    the catalogue allows, row-less sites being free to return — the datum's class is one of the
+    documented allowed strict origins. -/
+theorem strict_scalar_respects_origins_open (oracle : SiteOracle) (s : String) (allowed : List String)
     (hs : (s, allowed) ∈ allowedStrictOrigins)
-    (hcat : WithinCatalogue oracle)
-    (d v : Val) (h : scalarLoadGen oracle true s d = .ok v)
-    (htag : (factsOf d) ∈ tagFacts) :
+    (hcat : WithinCatalogueL oracle)
+    (d v : Val) (h : scalarLoadGen oracle true s d = .ok v) :
     allowed.contains (tagClass (factsOf d).tag) = true := by
+  have htag : (factsOf d) ∈ tagFacts := factsOf_mem d
   unfold scalarLoadGen at h
   cases hc : closureOf s true with
   | none => simp [hc] at h
@@ -72,7 +91,7 @@ theorem strict_scalar_respects_origins (oracle : SiteOracle) (s : String) (allow
     obtain ⟨prog, cat⟩ := pc
     simp only [hc] at h
     have hresp : Respects (closureEnv oracle true s d) (aenvL cat (factsOf d)) :=
-      ⟨rfl, rfl, fun site => siteWithin_guardedL (hcat true s d prog cat hc site)⟩
+      ⟨rfl, rfl, fun site => hcat true s d prog cat hc site⟩
     have hsound := runClosure_sound (closureEnv oracle true s d) (aenvL cat (factsOf d)) hresp prog
     have hret : (runClosure (closureEnv oracle true s d) prog).cls = .ret := by
       cases hr : runClosure (closureEnv oracle true s d) prog with
@@ -98,8 +117,89 @@ theorem strict_scalar_respects_origins (oracle : SiteOracle) (s : String) (allow
       exact ⟨htag, by simpa using hsound⟩
     exact List.all_eq_true.1 hrow _ hin
 
+/-- **Strict scalar loaders respect the documented origins**: if the translated strict closure of a
+    documented scalar returns a value on a datum — with its call sites behaving in any way the
+    catalogue allows — the datum's class is one of the documented allowed strict origins. -/
+theorem strict_scalar_respects_origins (oracle : SiteOracle) (s : String) (allowed : List String)
+    (hs : (s, allowed) ∈ allowedStrictOrigins)
+    (hcat : WithinCatalogue oracle)
+    (d v : Val) (h : scalarLoadGen oracle true s d = .ok v) :
+    allowed.contains (tagClass (factsOf d).tag) = true :=
+  strict_scalar_respects_origins_open oracle s allowed hs (withinL_of_within hcat) d v h
+
 /-- the premises are met: under the catalogue-built oracle (`witness_within`) the strict int loader
     does return on an int datum, so `strict_scalar_respects_origins` is applied to a real run -/
 example : (scalarLoadGen witnessOracle true "int" (.int 5)).isOk = true := by decide +kernel
+
+/-- … and the theorem applied to it, every hypothesis discharged: the class of the datum is a
+    documented origin of `int` -/
+example (v : Val) (h : scalarLoadGen witnessOracle true "int" (.int 5) = .ok v) :
+    ["int"].contains (tagClass (factsOf (.int 5)).tag) = true :=
+  strict_scalar_respects_origins witnessOracle "int" ["int"] (by decide) witness_within (.int 5) v h
+
+/-- an oracle that RETURNS at every call site without a catalogue row: it meets `WithinCatalogueL`
+    but not `WithinCatalogue`, so the open form really covers more behaviours -/
+def openOracle : SiteOracle := fun strict s d site =>
+  match closureOf s strict with
+  | none => .val d
+  | some (_, cat) =>
+    match cat (factsOf d).tag site with
+    | [] => .val d
+    | .val :: _ => .val d
+    | .falsy :: _ => .falsy d
+    | .raises e :: _ => .raises e
+
+theorem open_withinL : WithinCatalogueL openOracle := by
+  intro strict s d prog cat hc site
+  unfold openOracle
+  simp only [hc]
+  cases hrow : cat (factsOf d).tag site with
+  | nil => simp [guardedL, SiteOut.cls]
+  | cons c rest => cases c <;> simp [guardedL, SiteOut.cls]
+
+theorem open_not_within : ¬ WithinCatalogue openOracle := by
+  intro h
+  have := h true "int" (.int 0) prog_int_strict cat_int_strict (by rfl) "no such call"
+  rcases this with h1 | ⟨_, h2⟩
+  · revert h1; decide +kernel
+  · revert h2; decide +kernel
+
+example (v : Val) (h : scalarLoadGen openOracle true "int" (.int 5) = .ok v) :
+    ["int"].contains (tagClass (factsOf (.int 5)).tag) = true :=
+  strict_scalar_respects_origins_open openOracle "int" ["int"] (by decide) open_withinL (.int 5) v h
+
+/-! ### the instances named in the property statement
+
+  "no str to int" and "no bool to int" (a `bool` IS an `int` instance: only an exact-type guard
+  refuses it), for every string / bool, under every oracle within the catalogue.  (They depend on
+  the regenerated documentation row `("int", ["int"])`: if the docs start to allow another
+  origin these stop building, which is the intended signal.) -/
+
+theorem strict_int_rejects_str (oracle : SiteOracle) (hcat : WithinCatalogue oracle) (t : String) (v : Val) :
+    scalarLoadGen oracle true "int" (.str t) ≠ .ok v := by
+  intro h
+  have := strict_scalar_respects_origins oracle "int" ["int"] (by decide) hcat (.str t) v h
+  have e : factsOf (.str t) = factsOf (.str "") := rfl
+  rw [e] at this
+  revert this
+  decide +kernel
+
+theorem strict_int_rejects_bool (oracle : SiteOracle) (hcat : WithinCatalogue oracle) (b : Bool) (v : Val) :
+    scalarLoadGen oracle true "int" (.bool b) ≠ .ok v := by
+  intro h
+  have := strict_scalar_respects_origins oracle "int" ["int"] (by decide) hcat (.bool b) v h
+  have e : factsOf (.bool b) = factsOf (.bool true) := rfl
+  rw [e] at this
+  revert this
+  decide +kernel
+
+theorem strict_str_rejects_int (oracle : SiteOracle) (hcat : WithinCatalogue oracle) (i : Int) (v : Val) :
+    scalarLoadGen oracle true "str" (.int i) ≠ .ok v := by
+  intro h
+  have := strict_scalar_respects_origins oracle "str" ["str"] (by decide) hcat (.int i) v h
+  have e : factsOf (.int i) = factsOf (.int 0) := rfl
+  rw [e] at this
+  revert this
+  decide +kernel
 
 end Adaptix.Morph.C07Leaves
